@@ -390,8 +390,33 @@ def run(ctx, chk):
     chk.floor("C13.surface", "surface functions", n_surf, 30)
     S = eff.summ.get("verif_ctl_alloc_in_encoder")
     chk.ob("C13.control", "verif_ctl_alloc_in_encoder", bool(S and S["allocates"] and S["frees"]), "controls/ctl_alloc.c")
+    chk.rule("C13.ref-contract", "the operations that take or hand out references keep the count equal to the number of holders (success: "
+             "exactly one reference and one slot; failure: nothing; replace releases the displaced element once): a reference "
+             "dropped without one taken lets cbor_decref hand a block to the installed free while a holder remains (shared with "
+             "C04.contract)")
+    from props.c04 import check_contracts
+    import ownership as _Oc13
+    check_contracts(chk, "C13.ref-contract", prog, eff, _Oc13.PathCache(prog, eff), rules.item_offsets(prog))
+    chk.rule("C13.maker-init", "every constructor writes type, reference count and data pointer of the item it returns on every successful "
+             "path (an undefined data pointer is a pointer the installed allocator never produced)")
+    from props.c11 import check_makers_define_item
+    check_makers_define_item(chk, "C13.maker-init", prog, eff)
+    chk.rule("C13.count-width", "the reference count, which alone decides when an item's blocks go to the installed free, is stepped at "
+                                "the full 64 bits: no history of feasible length wraps it (a 32-bit counter returns to 1 after 2^32 "
+                                "legitimate increments and the next decrement frees a block that still has holders)")
+    import ownership as _O13
+    rules.check_refcount_width(chk, "C13.count-width", prog, _O13.PathCache(prog, eff))
     chk.count("units", len(prog.facts["units"]))
     chk.count("functions", len(prog.lib_funcs()))
+    chk.rule("C13.record-items", "the item a decoding-stack record carries is released (cbor_decref) or handed on (stored into its parent / the "
+             "context) on every path that unlinks the record: otherwise the partially built item and every block attached to it "
+             "never reach the installed free (each block is handed to the installed free exactly once - not zero times)")
+    from props.c06 import check_record_items
+    check_record_items(chk, "C13.record-items", prog, eff)
+    chk.rule("C13.no-access-after-free", "on every path of every library function (unit-internal helpers and the stack module inlined) no load or "
+             "store addresses a block after it was handed to the installed free, and no block is handed to it twice (every block released is still live when released and is not touched afterwards)")
+    from props.c06 import check_no_access_after_free
+    check_no_access_after_free(chk, "C13.no-access-after-free", prog, eff)
     chk.exhaustive = True
 
 
